@@ -168,7 +168,7 @@ def extra(res, lean, drv, tier, rnd):
     mdrv, err = core.build_driver('drv_mt', drivers.MT_SOURCES)
     if err:
         res.failures.append({'kind': 'kdiff', 'detail': 'cannot build the route-level driver: ' + err}); return
-    lines = [l for l in c09.gen(tier, rnd) if l.startswith('route ')]
+    lines = [l for l in c09.gen(tier, rnd) if l.startswith('route')]
     core.kdiff(res, lean, mdrv, lines, oracle=c09.oracle, classify=lambda l, o: ('route',) + tuple(l.split()[1:]) + (o[:3],), tag='route:', retry=2)
 
 def run(tier):
@@ -176,7 +176,7 @@ def run(tier):
 def replay(path):
     import json
     case = json.load(open(path)).get('case') or ''
-    if case.startswith('route '):
+    if case.startswith('route'):
         from vlib import drivers
         from vlib.props import c09
         mdrv, err = core.build_driver('drv_mt', drivers.MT_SOURCES)
